@@ -1,17 +1,22 @@
 SPECIFICATION Spec
 CONSTANTS
-  N = 3
-  Kinds <- K_callables
-  TKs <- TK_small
+  N = 4
+  Kinds <- K_alias
+  TKs <- TK_alias
   AllowList = FALSE
   AllowNSkip = FALSE
   AllowVSkip = FALSE
   AllowReturn = FALSE
   AllowMoved = FALSE
-  MaxFunctions = 1
+  AllowHost = FALSE
+  AllowRename = FALSE
+  MaxFunctions = 0
   Stepwise = TRUE
+  AliasRecheck = TRUE
+  CallableWalks = 2
+  RenameScopeCheck = TRUE
   COrder = FALSE
-  Orders <- Id3
+  Orders <- Id4
   KnownShapes <- W_alias_alias
   ExportViol = 0
   ExportOk = 0
